@@ -777,114 +777,78 @@ func (s *SMT) VerifyProof(k []byte, v []byte, validateMembership bool, root []by
 	if proofLen < 2 {
 		return false, ErrInvalidMerkleTreeProof()
 	}
+	// proofs are untrusted input: every node key must be a well-formed key that fits the tree
+	for _, n := range proof {
+		if n == nil || !validNodeKey(n.Key, s.keyBitLength) {
+			return false, ErrInvalidMerkleTreeProof()
+		}
+	}
+	// calculate the key the statement is about and make sure it is not a reserved one
+	target := newNodeKey(crypto.Hash(k), s.keyBitLength)
+	if err := s.validateTarget(&node{Key: target}); err != nil {
+		return false, err
+	}
 	// The target is always the first value in the proof. For membership
 	// proofs, it represents the actual value being verified. For non-membership proofs,
-	// it indicates the potential location of the node. The initial root hash
+	// it indicates the node where the traversal towards the key stops. The initial root hash
 	// can be constructed using this value.
 	hash := proof[0].Value
-	// currentKey is the key of the sibling node at any given height, it is used to
+	// currentKey is the key of the node on the path at any given height, it is used to
 	// calculate the parent node's key by finding the greatest common prefix (GCP)
 	// of the current node's and its sibling's keys
-	currentKey := new(key).fromBytes(proof[0].Key)
-	// create a new in-memory store to reconstruct the tree
-	memStore, err := NewStoreInMemory(lib.NewDefaultLogger())
-	if err != nil {
-		return false, err
-	}
-	// Reconstruct a similar Merkle tree using the proof nodes. This allows to traverse
-	// the tree again to verify if the given key and value are included in the tree or
-	// to confirm proof-of-non-membership if the key is absent.
-	smt := NewSMT(RootKey, s.keyBitLength, memStore)
-	// set the node being proven in the new tree
-	if err := smt.setNode(&node{
-		Node: lib.Node{
-			Value: proof[0].Value,
-			Key:   currentKey.bytes(),
-		},
-		Key: currentKey,
-	}); err != nil {
-		return false, err
-	}
-	// reconstruct the tree from the bottom up using the proof slice
+	currentKey := new(key).fromBytes(bytes.Clone(proof[0].Key))
+	// branchBits is the length of the shortest prefix that identifies proof[0]'s side below its parent:
+	// every key the proof can make a statement about shares that many leading bits with proof[0]
+	branchBits := 0
+	// reconstruct the hashes from the bottom up using the proof slice
 	for i := 1; i < proofLen; i++ {
-		// parentNode will be calculated based on the current node and its sibling
-		var parentNode *node
+		siblingKey := new(key).fromBytes(bytes.Clone(proof[i].Key))
 		// calculate the hash of the parent node based on the bitmask of the sibling
 		if proof[i].Bitmask == LeftChild {
-			// build the parent node hash based on the left sibling of the given node
-			hash = crypto.Hash(
-				append(append(proof[i].Key, proof[i].Value...),
-					append(currentKey.bytes(), hash...)...),
-			)
-			// set the parent node's children
-			parentNode = &node{
-				Node: lib.Node{
-					LeftChildKey:  proof[i].Key,
-					RightChildKey: currentKey.bytes(),
-				},
-			}
+			hash = crypto.Hash(lib.Append(lib.Append(siblingKey.bytes(), proof[i].Value), lib.Append(currentKey.bytes(), hash)))
 		} else {
-			// build the parent node hash based on the right sibling of the given node
-			hash = crypto.Hash(
-				append(append(currentKey.bytes(), hash...),
-					append(proof[i].Key, proof[i].Value...)...),
-			)
-			// set the parent node's children
-			parentNode = &node{
-				Node: lib.Node{
-					LeftChildKey:  currentKey.bytes(),
-					RightChildKey: proof[i].Key,
-				},
-			}
+			hash = crypto.Hash(lib.Append(lib.Append(currentKey.bytes(), hash), lib.Append(siblingKey.bytes(), proof[i].Value)))
 		}
-		// calculate the key of the parent node by finding the greatest common prefix
-		// (GCP) of their children
-		nodeKey := new(key).fromBytes(proof[i].Key)
-		gcp := new(key)
-		// calculate the GCP between the node and the sibling based on the length of
-		// the least significant bits to avoid out of bounds errors
-		if currentKey.totalBits() < currentKey.totalBits() {
-			currentKey.greatestCommonPrefix(new(int), gcp, nodeKey)
-		} else {
-			nodeKey.greatestCommonPrefix(new(int), gcp, currentKey)
+		// the key of the parent node is the greatest common prefix (GCP) of its children,
+		// and the children part ways right below it: neither key may be a prefix of the other
+		gcp, shared := new(key), 0
+		shorter, longer := currentKey, siblingKey
+		if longer.totalBits() < shorter.totalBits() {
+			shorter, longer = longer, shorter
+		}
+		longer.greatestCommonPrefix(&shared, gcp, shorter)
+		if shared == shorter.totalBits() {
+			return false, ErrInvalidMerkleTreeProof()
+		}
+		// only the root (the last parent) has an empty prefix
+		if (shared == 0) != (i == proofLen-1) {
+			return false, ErrInvalidMerkleTreeProof()
+		}
+		if i == 1 {
+			branchBits = shared + 1
 		}
 		// update the current key to the parent key
 		currentKey = gcp
-		// set the parent node's value, which is the hash of its children
-		parentNode.Value = hash
-		// set the parent node's key, which is the gcp of its children
-		parentNode.Key = currentKey
-		// add the parent node to the new tree
-		if err := smt.setNode(parentNode); err != nil {
-			return false, err
-		}
-		// set the root of the new tree, as the tree is being reconstructed from
-		// the bottom up, the last node in the proof slice will be the root
-		if i == proofLen-1 {
-			smt.root = parentNode
-		}
 	}
 	// compare the calculated root hash against the provided root hash
 	if !bytes.Equal(hash, root) {
 		return false, nil
 	}
-	// calculate the key to traverse the tree
-	smt.target = &node{Key: newNodeKey(crypto.Hash(k), smt.keyBitLength)}
-	// make sure the target is valid
-	if err := smt.validateTarget(smt.target); err != nil {
-		return false, err
+	// The hash chain ties proof[0] and its ancestors to the tree behind `root`. The proof says something
+	// about `target` only if the traversal towards target ends at proof[0], i.e. target lies on proof[0]'s
+	// side below proof[0]'s parent...
+	proven, shared := new(key).fromBytes(proof[0].Key), 0
+	target.greatestCommonPrefix(&shared, new(key), proven)
+	if shared < branchBits {
+		return false, nil
 	}
-	// reset the traversal variables
-	smt.reset()
-	// navigates the tree downward
-	if err := smt.traverse(); err != nil {
-		return false, err
+	// ...and the traversal stops there: either proof[0] is the key itself or the two part ways inside proof[0]'s key
+	nodeExists := bytes.Equal(target.bytes(), proof[0].Key)
+	if !nodeExists && shared == proven.totalBits() {
+		return false, nil
 	}
-	// Verify whether the key exists in the tree and what kind of proof is being validated
-	// (membership or non-membership).
 	// if the key does not exist in the tree and the proof is for membership or
 	// if the key exists in the tree and the proof is for non-membership, return false
-	nodeExists := smt.target.Key.equals(smt.gcp)
 	if (!nodeExists && validateMembership) || (nodeExists && !validateMembership) {
 		return false, nil
 	}
@@ -892,11 +856,21 @@ func (s *SMT) VerifyProof(k []byte, v []byte, validateMembership bool, root []by
 	if !nodeExists && !validateMembership {
 		return true, nil
 	}
-	// Verify if the value matches the provided one. This step confirms the
-	// proof-of-non-membership, as the intermediate nodes are built using the
-	// children's keys and values. A mismatch in values indicates that the Merkle
-	// root could not have been derived from this data.
+	// Verify if the value matches the provided one
 	return bytes.Equal(proof[0].Value, crypto.Hash(v)), nil
+}
+
+// validNodeKey() reports whether the bytes are the encoding of a key of 1..maxBits bits as newNodeKey / addBit
+// produce it: data bytes, then a meta byte holding the left padding of the final data byte
+func validNodeKey(data []byte, maxBits int) bool {
+	size := len(data)
+	if size < 2 {
+		return false
+	}
+	last, leftPadding := data[size-2], int(data[size-1])
+	// number of meaningful bits in the final data byte; an all-zero byte counts as one '0' after its padding
+	lastBits := leftPadding + max(bits.Len8(last), 1)
+	return lastBits <= 8 && (size-2)*8+lastBits <= maxBits
 }
 
 // NODE KEY CODE BELOW
